@@ -12,10 +12,19 @@ the link functions, `pixel_to_world_values` and the (power-of-two) inverse matri
 doubles; the Lean side computes with exact rationals and models `np.round` (half-to-even) exactly,
 so samples exactly half-way between two pixels are generated on purpose and counted (`-tie`
 branches).  Component values are integers.  Floats are never sent.
+
+Round 2 (fine ladder): the `fine` strata of `frb` / `seq` use bounds and link parameters at magnitudes
+3, 1e5, 2459000.5, 1e9, 2^-20, 2^40 ... (exact doubles, sent as exact rationals) and perturb them by
+1 ulp / 1e-12 ... 1e-3 relative / 2^-27, 2^-40 absolute, with the links arranged so that the
+perturbed component moves a sample across a pixel boundary (position k+1/2 -+ tiny) or across the
+edge of the source.  A generator-side filter (`exact_ok`) keeps only requests on which double
+arithmetic (numpy's own `linspace`, the link lambdas) rounds every sample to the same pixel as exact
+rational arithmetic, so the Lean model (exact `Rat`) stays the reference.
 """
 import gc
 import itertools
 import json
+import math
 from fractions import Fraction
 
 from harness.core import Family, Property, use_repo, sx
@@ -161,6 +170,10 @@ class Built:
 
 
 def bound_py(b):
+    """["s", x] | ["r", lo, hi, n]; a trailing "i" = the numbers are passed as Python ints (5 vs 5.0:
+    equal values, equal hashes - the model sees the value only)"""
+    if b[-1] == "i":
+        return int(q_of(b[1])) if b[0] == "s" else (int(q_of(b[1])), int(q_of(b[2])), int(b[3]))
     return fl(b[1]) if b[0] == "s" else (fl(b[1]), fl(b[2]), int(b[3]))
 
 
@@ -238,24 +251,33 @@ def state_sx(e):
 # ------------------------------------------------------------------------------------------
 
 def abstract_links(cw):
+    """(inputs, output, coefficients, constant, the same function on doubles - written exactly like
+    the `using=` lambdas of `Built._make_links`, for the exactness filter)"""
     out = []
     for l in cw["links"]:
         k = l[0]
         if k == "same":
             _, t, p, s, kk = l
-            out.append(([("p", t, p)], ("p", s, kk), [1], 0))
-            out.append(([("p", s, kk)], ("p", t, p), [1], 0))
+            out.append(([("p", t, p)], ("p", s, kk), [1], 0, lambda x: x))
+            out.append(([("p", s, kk)], ("p", t, p), [1], 0, lambda x: x))
         elif k == "aff":
             _, t, p, s, kk, a, b = l
             a, b = q_of(a), q_of(b)
-            out.append(([("p", t, p)], ("p", s, kk), [a], b))
-            out.append(([("p", s, kk)], ("p", t, p), [1 / a], -b / a))
+            fa, fb = float(a), float(b)
+            out.append(([("p", t, p)], ("p", s, kk), [a], b, lambda x, fa=fa, fb=fb: fa * x + fb))
+            out.append(([("p", s, kk)], ("p", t, p), [1 / a], -b / a, lambda y, fa=fa, fb=fb: (y - fb) / fa))
         elif k == "lin":
             _, t, ps, s, kk, coefs, b = l
-            out.append(([("p", t, p) for p in ps], ("p", s, kk), [q_of(c) for c in coefs], q_of(b)))
+
+            def f(*xs, cs=[fl(c) for c in coefs], fb=fl(b)):
+                o = fb
+                for c, x in zip(cs, xs):
+                    o = o + c * x
+                return o
+            out.append(([("p", t, p) for p in ps], ("p", s, kk), [q_of(c) for c in coefs], q_of(b), f))
         elif k == "main":
             _, t, c, s, kk = l
-            out.append(([("m", t, c)], ("p", s, kk), [1], 0))
+            out.append(([("m", t, c)], ("p", s, kk), [1], 0, None))
     return out
 
 
@@ -267,7 +289,7 @@ def discover(cw, t, links):
     chosen = {}
     while True:
         for link in links:
-            ins, out, _, _ = link
+            ins, out = link[0], link[1]
             if not all(i in depth for i in ins):
                 continue
             cost = max(depth[i] for i in ins) + 1 if ins else 1
@@ -288,7 +310,7 @@ def tree(cw, t, chosen, node, fuel=8):
         return "nonpixel"
     if node not in chosen or fuel == 0:
         return "missing"
-    ins, _, coefs, c = chosen[node]
+    ins, _, coefs, c = chosen[node][:4]
     return ["v", [q_sx(x) for x in coefs], q_sx(c), [tree(cw, t, chosen, i, fuel - 1) for i in ins]]
 
 
@@ -596,6 +618,470 @@ def worlds_stream(tier, rng):
             yield world_lin(rng)
 
 
+# ------------------------------------------------------------------------------------------
+# round 2: the fine ladder (scale-dependent tolerances, approximate / lossy cache keys)
+# ------------------------------------------------------------------------------------------
+#
+# A fine world: reference dataset 0 (the frame of the bounds), source dataset 1; source axis k hangs
+# on reference axis p_k through   pos_k = a_k * x + b_k,   a_k = 2^e_k,   b_k = (j_k + 1/2) - a_k * M_k,
+# i.e. the reference coordinate M_k (of any magnitude) is linked to the source position j_k + 1/2,
+# exactly between the source pixels j_k and j_k + 1 (j = -1 / size-1: the edge of the source).
+# A bound component  x = M + (c - j - 1/2)/a  samples the source position c;  x +- delta  moves the
+# sample by  a * delta  (<= 1/4 pixel).  cw["fine"]["map"]["t,d"] = per source axis of d
+# [reference axis, a, M, j, size] for the dataset pairs whose requests are built this way.
+
+RUNGS = ["ulp", "pulp", 1e-12, 1e-9, 1e-7, 1e-5, 1e-3, "a8", "a12"]
+JD = Fraction(4918001, 2)                        # 2459000.5
+MAGS = [Fraction(3), Fraction(5, 4), Fraction(10 ** 5), JD, Fraction(10 ** 9), Fraction(3, 2 ** 21),
+        Fraction(1, 2 ** 20), -JD, Fraction(0)]
+MAGS_THOROUGH = [Fraction(1, 2), Fraction(10 ** 15), Fraction(-3), Fraction(2 ** 40), Fraction(float(1e-6)),
+                 Fraction(float(0.1)), Fraction(float(2459000.5 + 1e-5))]
+
+
+def is_double(fr):
+    try:
+        return Fraction(float(fr)) == fr
+    except OverflowError:
+        return False
+
+
+def ulp_of(fr):
+    return Fraction(math.ulp(float(fr)))
+
+
+def fine_delta(x, a, rung, rng, h=Fraction(1, 2)):
+    """an exact positive step for the float component `x` on rung `rung` (None: not applicable)"""
+    if rung == "ulp":
+        return ulp_of(x) if x != 0 else None
+    if rung == "pulp":                            # one ulp of the linked position h
+        return ulp_of(h) / abs(a)
+    if rung in ("a8", "a12"):                     # absolute steps below 1e-8 / 1e-12, near zero
+        if abs(x) > 4:
+            return None
+        return Fraction(1, 2 ** 27) if rung == "a8" else Fraction(1, 2 ** 40)
+    if x == 0:
+        return None
+    d = Fraction(2) ** math.floor(math.log2(abs(float(x)) * rung))
+    if rng.random() < 0.3:                        # not a power of two: what `x * (1 + r)` gives
+        y = Fraction(float(x) * (1 + rung))
+        if y != x:
+            d = abs(y - x)
+    return d
+
+
+def pick_exponent(delta, rng, lim=30):
+    """e with 2^-45 <= 2^e * delta <= 1/4 and |e| <= lim (None if there is none)"""
+    lg = math.log2(float(delta))
+    lo, hi = max(-lim, math.ceil(-45 - lg)), min(lim, math.floor(-2 - lg))
+    if lo > hi:
+        return None
+    return rng.choice([hi, hi, rng.randint(lo, hi), 0 if lo <= 0 <= hi else hi, max(lo, hi - 3)])
+
+
+def world_fine(rng, specs, extra=0, chain=None, twin=None):
+    """specs = per source axis (e, M, j, size); `extra` unlinked (broadcast) reference axes;
+    chain = per axis of a third dataset hanging on dataset 1 (e2, j2, size2);
+    twin = ("b" | "a", k, step): a third dataset with the SAME shape and values as dataset 1 whose link
+    on axis k has the offset (scale) moved by `step`."""
+    sn = len(specs)
+    tn = sn + extra
+    axes = list(range(tn))
+    rng.shuffle(axes)
+    ds = [mk_ds(rand_shape(tn, rng), 2, rng, 10), mk_ds([sp[3] for sp in specs], 2, rng, 100)]
+    links, m01, m11 = [], [], []
+    for k, (e, M, j, size) in enumerate(specs):
+        a = Fraction(2) ** e
+        h = Fraction(2 * j + 1, 2)
+        b = h - a * M
+        if not is_double(b):
+            return None
+        links.append(["aff", 0, axes[k], 1, k, q_enc(a), q_enc(b)])
+        m01.append([axes[k], q_enc(a), q_enc(M), j, size])
+        m11.append([k, 1, q_enc(h), j, size])
+    maps = {"0,1": m01, "1,1": m11}
+    fine = {"map": maps}
+    if chain:
+        ds.append(mk_ds([c[2] for c in chain], 1, rng, 200))
+        m02, m12 = [], []
+        for k, (e2, j2, size2) in enumerate(chain):
+            a2 = Fraction(2) ** e2
+            h1, h2 = q_of(m11[k][2]), Fraction(2 * j2 + 1, 2)
+            b2 = h2 - a2 * h1
+            if not is_double(b2):
+                return None
+            links.append(["aff", 1, k, 2, k, q_enc(a2), q_enc(b2)])
+            m02.append([m01[k][0], q_enc(q_of(m01[k][1]) * a2), m01[k][2], j2, size2])
+            m12.append([k, q_enc(a2), q_enc(h1), j2, size2])
+        maps["0,2"], maps["1,2"] = m02, m12
+    if twin:
+        kind, k0, step = twin
+        d2 = {"shape": list(ds[1]["shape"]), "comps": [list(c) for c in ds[1]["comps"]], "coords": None}
+        ds.append(d2)
+        for k in range(sn):
+            l = list(links[k])
+            l[3] = 2
+            if k == k0:
+                if kind == "b":
+                    l[6] = q_enc(q_of(l[6]) + step)
+                else:
+                    l[5] = q_enc(q_of(l[5]) * (1 + step))
+                if not (is_double(q_of(l[5])) and is_double(q_of(l[6]))):
+                    return None
+            links.append(l)
+        fine["twin"] = True
+    cw = {"ds": ds, "links": links, "states": [], "fine": fine}
+    cw["states"] = std_states(cw, rng)
+    return cw
+
+
+def xof(ent, c):
+    """the reference coordinate linked to source position c"""
+    a, M, j = q_of(ent[1]), q_of(ent[2]), ent[3]
+    return M + (Fraction(c) - Fraction(2 * j + 1, 2)) / a
+
+
+def halves(size):
+    return [Fraction(2 * h + 1, 2) for h in range(-1, size)]
+
+
+def fine_axis_bound(ent, rng, kind=None, at=None):
+    """a bound on a linked reference axis whose samples sit on pixel centres / pixel boundaries of the
+    source;  returns (bound, [(component index, source position)])  or None"""
+    size = ent[4]
+    hs = halves(size)
+    pos = lambda: rng.choice(hs) if rng.random() < 0.7 else Fraction(rng.randint(-1, size))
+    kind = kind or rng.choice(["s", "s", "r", "r", "r"])
+    if kind == "s":
+        c = pos() if at is None else at
+        x = xof(ent, c)
+        return (["s", q_enc(x)], [(1, c)]) if is_double(x) else None
+    n = rng.choice([1, 2, 2, 3, 3, 5, 4, 6])
+    step = q_of(rng.choice([1, 1, [1, 2], 2, -1, [1, 4], 0]))
+    c0 = pos() if at is None else at
+    c1 = c0 + step * (n - 1) if n > 1 else (c0 + step)
+    lo, hi = xof(ent, c0), xof(ent, c1)
+    if not (is_double(lo) and is_double(hi)):
+        return None
+    return ["r", q_enc(lo), q_enc(hi), n], [(1, c0), (2, c1)]
+
+
+def fine_bounds(cw, t, ents, rng):
+    """(bounds on frame t, [(axis, component index, source position, entry)] of the float components)"""
+    tshape = cw["ds"][t]["shape"]
+    bounds = [rand_bound(sz, rng) for sz in tshape]
+    for b in bounds:
+        if b[0] == "r" and b[3] < 1:
+            b[3] = 1
+    comps = []
+    for ent in ents:
+        fb = fine_axis_bound(ent, rng)
+        if fb is None:
+            fb = (["s", ent[2]], [(1, Fraction(2 * ent[3] + 1, 2))])
+        bounds[ent[0]] = fb[0]
+        comps.extend((ent[0], ci, c, ent) for ci, c in fb[1])
+    return bounds, comps
+
+
+def with_comp(bounds, axis, ci, x):
+    b = list(bounds[axis])
+    b[ci] = q_enc(x)
+    return bounds[:axis] + [b] + bounds[axis + 1:]
+
+
+def eval_pair(cw, t, d, bounds):
+    """per source axis of d: (positions by numpy doubles - the grid built like the function under test
+    builds it, the links applied like `Built` writes them -, positions by exact rationals); None if the
+    pair is not derivable through pixel / affine links"""
+    tn = len(cw["ds"][t]["shape"])
+    if len(bounds) != tn or any(b[0] == "r" and b[3] < 1 for b in bounds):
+        return None
+    chosen = discover(cw, t, abstract_links(cw)) if d != t else {}
+    fax = [np.linspace(*bound_py(b)) if b[0] == "r" else bound_py(b) for b in bounds]
+    fgrid = np.meshgrid(*fax, indexing='ij', copy=False)
+    eax = []
+    for b in bounds:
+        if b[0] == "s":
+            eax.append([q_of(b[1])])
+        else:
+            lo, hi, n = q_of(b[1]), q_of(b[2]), b[3]
+            eax.append([lo if n <= 1 else lo + k * ((hi - lo) / (n - 1)) for k in range(n)])
+    egrid = list(itertools.product(*eax))
+
+    def ev(node, fuel=8):
+        if node[0] == "p" and node[1] == t:
+            return fgrid[node[2]], [pt[node[2]] for pt in egrid]
+        if node not in chosen or fuel == 0 or chosen[node][4] is None:
+            raise KeyError(node)
+        ins, _, coefs, c, fn = chosen[node]
+        sub = [ev(i, fuel - 1) for i in ins]
+        fv = fn(*[s_[0] for s_ in sub])
+        evs = [c + sum(co * s_[1][m] for co, s_ in zip(coefs, sub)) for m in range(len(egrid))]
+        return fv, evs
+    out = []
+    try:
+        for k in range(len(cw["ds"][d]["shape"])):
+            fv, evs = ev(("p", d, k))
+            out.append((np.broadcast_to(np.asarray(fv, dtype=float), fgrid[0].shape).ravel(), evs))
+    except KeyError:
+        return None
+    return out
+
+
+def req_doubles(req):
+    return all(is_double(q_of(v)) for b in req[2] for v in b[1:3 if b[0] == "r" else 2])
+
+
+def exact_ok(cw, req):
+    """double arithmetic sends every sample of the request to the same source pixel as exact rational
+    arithmetic does (this is what makes the exact Lean model the reference for these inputs)"""
+    _, d, bounds, t = req[:4]
+    with np.errstate(all="ignore"):
+        res = eval_pair(cw, t, d, bounds)
+    if res is None:
+        return False
+    for fv, evs in res:
+        if not np.all(np.isfinite(fv)) or np.any(np.abs(fv) > 2.0 ** 50):
+            return False
+        if [int(v) for v in np.round(fv)] != [round(e) for e in evs]:   # both round half to even
+            return False
+    return True
+
+
+def fine_whats(cw, d, rng):
+    nds = len(cw["ds"])
+    out = [["c", d, 0], ["c", d, 0], ["c", d, 0], ["px", d, 0], ["st", 5 * d + 2], ["st", 5 * d]]
+    if len(cw["ds"][d]["comps"]) > 1:
+        out.append(["c", d, 1])
+    out.append(["st", 5 * nds + 1])
+    return out
+
+
+def ladder_specs(rng, M, rung, offs=0, sn=1, lim=30):
+    """specs for `world_fine` whose axis 0 has its pixel boundary at M + offs*delta (delta = the rung's
+    step at M); None if the rung does not apply at M"""
+    size = rng.randint(2, 4)
+    j = rng.randint(-1, size - 1)
+    d0 = fine_delta(M, 1, rung, rng, Fraction(2 * j + 1, 2)) if rung != "pulp" else Fraction(1, 2 ** 30)
+    if d0 is None:
+        return None
+    e = pick_exponent(d0, rng, lim)
+    if e is None:
+        return None
+    if rung == "pulp":     # x + ulp(h)/a must be a double: |a*M| below 1 (any scale at M = 0)
+        if M == 0:
+            e = rng.choice([0, 0, 1, -1, 3, -3, 10, -10, 20, -20, 30, -30])
+        else:
+            emax = -math.ceil(math.log2(abs(float(M)))) - 1
+            e = rng.choice([emax, emax - 2, emax - 10])
+            if abs(e) > lim:
+                return None
+    Mb = M + offs * d0
+    if not is_double(Mb):
+        return None
+    specs = [(e, Mb, j, size)]
+    for _ in range(sn - 1):
+        sz = rng.randint(1, 3)
+        M2 = rng.choice([Fraction(1, 2), Fraction(3, 2), JD, Fraction(10 ** 5), Fraction(-7, 4)])
+        specs.append((rng.choice([0, 0, 1, -1, 2]), M2, rng.randint(-1, sz - 1), sz))
+    return specs
+
+
+def fine_worlds(tier, rng, reps=1):
+    """(world, rung, delta at axis 0's boundary, boundary offset)"""
+    quick = tier == "quick"
+    mags = MAGS if quick else MAGS + MAGS_THOROUGH
+    for _ in range(reps):
+        for M in mags:
+            for rung in RUNGS:
+                for offs in ((0, rng.choice([-1, 1])) if quick else (0, -1, 1)):
+                    sn = rng.choice([1, 1, 2])
+                    specs = ladder_specs(rng, M, rung, offs, sn, 30 if quick else rng.choice([30, 60]))
+                    if specs is None:
+                        continue
+                    r = rng.random()
+                    chain = twin = None
+                    if r < 0.15:
+                        chain = [(rng.choice([0, 1, -1, 2, -2]), rng.randint(-1, 2), 3)]
+                    cw = world_fine(rng, specs, extra=rng.choice([0, 0, 1]), chain=chain, twin=twin)
+                    if cw is None or deriv_table(cw) is None:
+                        continue
+                    yield cw, rung, offs
+
+
+def scale_offset_worlds(tier, rng):
+    """the magnitude / offset ladder of the `frb` family: scales 2^-30 .. 2^30 against link offsets of
+    size 0, 2^10 .. 2^40 (b = j + 1/2 - a*M)"""
+    quick = tier == "quick"
+    es = [-30, -20, -10, -3, -1, 0, 1, 3, 10, 20, 30]
+    for e in es:
+        for L in (None, 10, 20, 30, 40):
+            for sign in ((rng.choice([1, -1]),) if quick else (1, -1)):
+                M = Fraction(0) if L is None else sign * Fraction(2) ** (L - e) * rng.choice([1, Fraction(3, 2), Fraction(5, 4)])
+                size = rng.randint(2, 4)
+                specs = [(e, M, rng.randint(-1, size - 1), size)]
+                if rng.random() < 0.4:
+                    sz = rng.randint(1, 3)
+                    specs.append((rng.choice(es), rng.choice([Fraction(3, 2), JD, Fraction(2) ** 33, Fraction(0)]),
+                                  rng.randint(-1, sz - 1), sz))
+                chain = None
+                if rng.random() < 0.3:
+                    chain = [(rng.choice([-e, -e, 0, 1, -1]) if abs(e) <= 30 else 0, rng.randint(-1, 2), 3)]
+                cw = world_fine(rng, specs, extra=rng.choice([0, 0, 1]), chain=chain)
+                if cw is not None and deriv_table(cw) is not None:
+                    yield cw
+
+
+def fine_single_reqs(cw, rng, count):
+    """single requests whose samples sit on half-integer source positions and one step on either side
+    (step = 1 ulp of the bound, 1 ulp of the position, or a ladder rung)"""
+    pairs = sorted(cw["fine"]["map"])
+    out, tries = [], 0
+    while len(out) < count and tries < 6 * count:
+        tries += 1
+        key = rng.choice(pairs)
+        t, d = (int(v) for v in key.split(","))
+        ents = cw["fine"]["map"][key]
+        bounds, comps = fine_bounds(cw, t, ents, rng)
+        for axis, ci, c, ent in comps:
+            tt = rng.choice([-1, 0, 1, 1, -1])
+            if tt == 0:
+                continue
+            x = q_of(bounds[axis][ci])
+            dl = fine_delta(x, q_of(ent[1]), rng.choice(["ulp", "ulp", "pulp", "pulp", 1e-12, 1e-9, "a8", "a12"]), rng,
+                            c if c != 0 else Fraction(1, 2))
+            if dl is None or not is_double(x + tt * dl):
+                continue
+            bounds = with_comp(bounds, axis, ci, x + tt * dl)
+        req = ["req", d, bounds, t, rng.choice(fine_whats(cw, d, rng)), rng.random() < 0.85, None]
+        if exact_ok(cw, req):
+            out.append(req)
+    return out
+
+
+SCHEDULES = [[-1, 1], [1, -1], [-1, 1, -1], [0, 1, 0, -1], [-1, 0, 1, -1], [1, -1, 1], [-1, 1, 1, -1], [0, -1, 1, 0],
+             [-1, 1, 2, -1], [1, 0, -1, -2]]
+
+
+def fine_history(cw, rng, rung):
+    """a request history under one cache id in which ONE float component of the request walks over
+    x + t*delta (t from a schedule) across a pixel boundary of the source; None if not constructible"""
+    f = cw["fine"]
+    keys = sorted(f["map"])
+    key = rng.choice([k for k in keys if k != "1,1"] * 3 + ["1,1"]) if rung not in ("a8", "a12") else rng.choice(keys)
+    t, d = (int(v) for v in key.split(","))
+    ents = f["map"][key]
+    bounds, comps = fine_bounds(cw, t, ents, rng)
+    # the active component: on axis 0 of the source (the one the world was built for), at the boundary
+    ent = ents[0]
+    h = Fraction(2 * ent[3] + 1, 2)
+    mode = rng.choice(["s", "s", "lo", "hi", "pan", "n1"])
+    fb = fine_axis_bound(ent, rng, "s" if mode == "s" else "r", at=h)
+    if fb is None:
+        return None
+    b = fb[0]
+    if mode == "hi":        # the LAST sample sits on the boundary
+        if b[3] == 1:
+            b[3] = 2
+        b = ["r", q_enc(xof(ent, h - 1)), b[1], b[3]]
+    if mode == "n1":        # one sample: `hi` is part of the key and irrelevant for the answer
+        b = ["r", b[1], b[2], 1]
+    if not is_double(q_of(b[1])) or (b[0] == "r" and not is_double(q_of(b[2]))):
+        return None
+    bounds[ent[0]] = b
+    x0 = q_of(b[2] if mode == "hi" else b[1])
+    dl = fine_delta(x0, q_of(ent[1]), rung, rng, h)
+    if dl is None:
+        return None
+    what = rng.choice(fine_whats(cw, d, rng)[:3] + fine_whats(cw, d, rng))
+    sched = rng.choice(SCHEDULES)
+    ops = []
+    for i, tt in enumerate(sched):
+        bb = list(b)
+        if mode in ("s", "lo", "n1"):
+            bb[1] = q_enc(q_of(b[1]) + tt * dl)
+        elif mode == "hi":
+            bb[2] = q_enc(q_of(b[2]) + tt * dl)
+        else:
+            bb[1], bb[2] = q_enc(q_of(b[1]) + tt * dl), q_enc(q_of(b[2]) + tt * dl)
+        if not all(is_double(q_of(v)) for v in bb[1:3 if bb[0] == "r" else 2]):
+            return None
+        bs = bounds[:ent[0]] + [bb] + bounds[ent[0] + 1:]
+        w = what
+        if i > 0 and rng.random() < 0.25:        # ARRAY_CACHE misses for another reason: PIXEL_CACHE is asked
+            w = rng.choice(fine_whats(cw, d, rng))
+        dd = d
+        if f.get("twin") and d == 1 and rng.random() < 0.5:
+            dd = 2
+            w = [w[0], 2] + w[2:] if w[0] in ("c", "px") else (["st", 10 + w[1] % 5] if w[1] < 15 else w)
+        req = ["req", dd, bs, t, w, True, 0]
+        if not exact_ok(cw, req):
+            return None
+        ops.append(req)
+    return ops
+
+
+def retype_history(cw, rng, rung):
+    """integer-valued bounds passed as Python ints and as floats (5 == 5.0, same hash: the same key),
+    then moved by the rung; and the number of samples n -> n +- 1 between identical (lo, hi)"""
+    f = cw["fine"]
+    ent = f["map"]["0,1"][0]
+    h = Fraction(2 * ent[3] + 1, 2)
+    bounds, _ = fine_bounds(cw, 0, f["map"]["0,1"], rng)
+    x = xof(ent, h)
+    ops = []
+    if x.denominator == 1 and rng.random() < 0.6:
+        dl = fine_delta(x, q_of(ent[1]), rung, rng, h)
+        if dl is None or not (is_double(x + dl) and is_double(x - dl)):
+            return None
+        if rng.random() < 0.5:
+            seq_ = [["s", int(x), "i"], ["s", int(x)], ["s", q_enc(x + dl)], ["s", int(x), "i"], ["s", q_enc(x - dl)]]
+        else:
+            x1 = xof(ent, h + 1)
+            if x1.denominator != 1:
+                return None
+            seq_ = [["r", int(x), int(x1), 2, "i"], ["r", q_enc(x + dl), int(x1), 2], ["r", int(x), int(x1), 2],
+                    ["r", q_enc(x - dl), int(x1), 2], ["r", int(x), int(x1), 2, "i"]]
+    else:
+        n = rng.choice([2, 3, 5])
+        lo, hi = xof(ent, h), xof(ent, h + rng.choice([1, 2]))
+        if not (is_double(lo) and is_double(hi)):
+            return None
+        seq_ = [["r", q_enc(lo), q_enc(hi), m] for m in (n, n + 1, n, n - 1, n + 1)]
+    rng.shuffle(seq_) if rng.random() < 0.3 else None
+    what = rng.choice(fine_whats(cw, 1, rng))
+    for b in seq_[:rng.randint(3, 5)]:
+        req = ["req", 1, bounds[:ent[0]] + [b] + bounds[ent[0] + 1:], 0, what, True, 0]
+        if not exact_ok(cw, req):
+            return None
+        ops.append(req)
+    return ops
+
+
+def twin_worlds(tier, rng):
+    """two sources with equal shape AND equal values whose links differ by one rung in the offset or in
+    the scale: requests that differ only in the identity of `data`"""
+    quick = tier == "quick"
+    for M in (MAGS if quick else MAGS + MAGS_THOROUGH):
+        for rung in ("ulp", 1e-12, 1e-9, 1e-5) if quick else ("ulp", 1e-12, 1e-9, 1e-7, 1e-5, 1e-3):
+            specs = ladder_specs(rng, M, rung, 0, 1)
+            if specs is None:
+                continue
+            e, Mb, j, size = specs[0]
+            a = Fraction(2) ** e
+            b = Fraction(2 * j + 1, 2) - a * Mb
+            if rng.random() < 0.6 or Mb == 0:
+                db = fine_delta(b, 1, rung, rng) if b != 0 else Fraction(1, 2 ** 30)
+                if db is None or db > Fraction(1, 4):
+                    db = ulp_of(b) if b != 0 else Fraction(1, 2 ** 30)
+                twin = ("b", 0, rng.choice([1, -1]) * db)
+            else:
+                lg = math.floor(math.log2(float(abs(a * Mb)))) + 3
+                twin = ("a", 0, rng.choice([1, -1]) * Fraction(1, 2 ** max(lg, 1)))
+            cw = world_fine(rng, specs, extra=rng.choice([0, 1]), twin=twin)
+            if cw is not None and deriv_table(cw) is not None:
+                yield cw, rung
+
+
 def shrink_world_req(cw, reqs):
     """smaller datasets are hard to do generically (bounds refer to sizes): shrink requests only"""
     return iter(())
@@ -631,6 +1117,14 @@ class Single(_Base):
 
     def cases(self, tier, rng):
         quick = tier == "quick"
+        # round 2: sample positions on half-integers and one step on either side, source frames related
+        # to the reference by scales 2^-30 .. 2^30 and offsets up to 2^40; then the magnitude ladder
+        for cw in scale_offset_worlds(tier, rng):
+            for req in fine_single_reqs(cw, rng, 8 if quick else 16):
+                yield [cw, req]
+        for cw, _, _ in fine_worlds(tier, rng):
+            for req in fine_single_reqs(cw, rng, 3 if quick else 6):
+                yield [cw, req]
         for cw in worlds_stream(tier, rng):
             if deriv_table(cw) is None:
                 continue
@@ -660,6 +1154,13 @@ class Single(_Base):
         return {"construct": "single", "answer": answer_kind(pyout)}
 
     def shrink(self, case):
+        cw, _ = case
+        for c2 in self._shrink(case):
+            # fine-ladder cases: stay inside the inputs on which doubles and rationals agree
+            if "fine" not in cw or (req_doubles(c2[1]) and exact_ok(cw, c2[1])):
+                yield c2
+
+    def _shrink(self, case):
         cw, req = case
         bounds = req[2]
         for i, b in enumerate(bounds):
@@ -780,6 +1281,21 @@ class Seq(_Base):
     def cases(self, tier, rng):
         quick = tier == "quick"
         maxlen = 5 if quick else 10
+        # round 2: one float component of the request walks across a pixel boundary of the source by
+        # the fine ladder, under one cache id (an approximate / rounded / down-cast key gives a stale hit)
+        for cw, rung, _ in fine_worlds(tier, rng, reps=1 if quick else 3):
+            for _ in range(5 if quick else 6):
+                ops = fine_history(cw, rng, rung)
+                if ops:
+                    yield [cw, ops]
+            ops = retype_history(cw, rng, rung)
+            if ops:
+                yield [cw, ops]
+        for cw, rung in twin_worlds(tier, rng):
+            for _ in range(3 if quick else 6):
+                ops = fine_history(cw, rng, rung)
+                if ops:
+                    yield [cw, ops]
         for cw in worlds_stream(tier, rng):
             if deriv_table(cw) is None:
                 continue
@@ -863,6 +1379,8 @@ class Seq(_Base):
         return sx(["seq", [world_sx(cw), sops], pyout])
 
     def nontrivial(self, case, po):
+        if "fine" in case[0]:     # a stale hit is observable: the requests have >= 2 different answers
+            return isinstance(po, list) and len({json.dumps(a) for a in po}) >= 2
         return len(case[1]) >= 3
 
     def signature(self, case, pyout, res):
@@ -880,7 +1398,7 @@ class Seq(_Base):
                 yield [cw, ops[:i] + ops[i + 1:]]
         for i, o in enumerate(ops):
             if o[0] == "req":
-                for c2 in Single.shrink(None, [cw, o]):
+                for c2 in Single().shrink([cw, o]):
                     yield [cw, ops[:i] + [c2[1]] + ops[i + 1:]]
 
 
@@ -1071,15 +1589,15 @@ class Img(_Base):
 PROP = Property(
     id="C16",
     title="A fixed-resolution buffer equals nearest-pixel resampling through the links",
-    theorems=["C16.rne_nearest", "C16.nearest_candidates", "C16.nearest_unique_off_ties", "C16.frb_pointwise", "C16.frb_accepted", "C16.frb_defined_iff", "C16.frb_answer_accepted", "C16.frb_indep_irrelevant_scalar", "C16.wildcard_key_exact", "C16.frb_indep_irrelevant_scalars", "C16.dimensions_correct", "C16.world_leaf_wf", "C16.w2p_node_wf", "C16.cache_step_sound", "C16.cache_sound", "C16.cache_sound_from", "C16.slice_to_bound_positions", "C16.sliced_request_denotes", "C16.selection_edited_in_place_stale", "C16.data_changed_in_place_stale", "C16.slice_to_bound_pinned_wrong"],
+    theorems=["C16.rne_nearest", "C16.nearest_candidates", "C16.nearest_unique_off_ties", "C16.frb_pointwise", "C16.frb_accepted", "C16.frb_defined_iff", "C16.frb_answer_accepted", "C16.frb_indep_irrelevant_scalar", "C16.wildcard_key_exact", "C16.frb_indep_irrelevant_scalars", "C16.dimensions_correct", "C16.world_leaf_wf", "C16.w2p_node_wf", "C16.cache_step_sound", "C16.cache_sound", "C16.cache_sound_from", "C16.cache_key_exact_needed", "C16.hit_test_as_coded", "C16.allclose_bounds_stale", "C16.slice_to_bound_positions", "C16.sliced_request_denotes", "C16.selection_edited_in_place_stale", "C16.data_changed_in_place_stale", "C16.slice_to_bound_pinned_wrong"],
     families=[Single(), Seq(), Img()],
-    trusted_base=["numpy linspace / meshgrid / round (half-to-even) / broadcasting / unbroadcast / fancy indexing are modelled by value (Model/C16FRB.lean); exact on the dyadic inputs generated",
+    trusted_base=["numpy linspace / meshgrid / round (half-to-even) / broadcasting / unbroadcast / fancy indexing are modelled by value (Model/C16FRB.lean); exact on the small dyadic inputs generated; on the fine-ladder inputs (magnitudes 2^-20 .. 2^70, steps down to 1 ulp) a generator-side filter keeps the requests on which numpy's own linspace and the link lambdas in doubles round every sample to the same pixel as exact rationals",
                   "LinkManager.discover_links is not modelled: the harness derives the translate_pixel recursion trees with a port of the same loop and discards worlds whose result depends on set iteration order",
                   "C15 coordinate model (Model/Coords.lean) for world-coordinate leaves and world->pixel link nodes"],
-    assumptions=["datasets <= 3, <= 3-d, sides <= 4; links: LinkSame on pixel ids, a*x+b with a in {+-1, +-2, +-1/2}, two-input affine links, LinkSame on all world axes of two AffineCoordinates datasets (dyadic, permuted, optionally a coupled block), chains over a third dataset",
+    assumptions=["datasets <= 3, <= 3-d, sides <= 4; links: LinkSame on pixel ids, a*x+b with a in {+-1, +-2, +-1/2}, two-input affine links, LinkSame on all world axes of two AffineCoordinates datasets (dyadic, permuted, optionally a coupled block), chains over a third dataset; fine-ladder worlds: a*x+b links with a = 2^-60 .. 2^60 and |b| up to 2^40 that put reference coordinates of magnitude 0, 2^-20, 3, 1e5, 2459000.5, 1e9, 1e15, 2^40 .. 2^70 on a pixel boundary (or the edge) of the source",
                  "request targets: main / pixel components of the requested dataset, components of another or of no dataset (-> IncompatibleAttribute), selection objects over the requested dataset's components and dataset-independent ElementSubsetStates; pixel components / pixel-range selections of ANOTHER linked dataset (derivable through links) are not modelled and not generated",
                  "no dask components; bounds passed as a list; unique component uuids (no session-restored duplicates)",
                  "in-place changes of component arrays between requests are outside the property (for unchanged data): cached requests after such a change are compared with the model only"],
-    rule="worlds: structured (every target/source ndim pair x link kind, wcs n=1..3, coupled, chains, twins) + seeded random; per world: the whole reference grid and seeded bounds per dataset pair (frb), 4-8 random histories + one-component collision probes + finding strata (seq), 3-6 layer states with 1-7 get_sliced_data calls (img); non-trivial = source != reference and an array returned (frb), history of >= 3 operations (seq), at least one image returned (img)",
+    rule="worlds: structured (every target/source ndim pair x link kind, wcs n=1..3, coupled, chains, twins) + seeded random; per world: the whole reference grid and seeded bounds per dataset pair (frb), 4-8 random histories + one-component collision probes + finding strata (seq), 3-6 layer states with 1-7 get_sliced_data calls (img); fine ladder: per magnitude x rung (1 ulp of the bound / of the position, 1e-12 .. 1e-3 relative, 2^-27 / 2^-40 absolute) x boundary offset a world, single requests with samples on half-integer source positions -+ one step (frb), histories in which one float component (scalar, lo, hi, both, n, int-vs-float type, twin link offset / scale) walks across the boundary under one cache id (seq); non-trivial = source != reference and an array returned (frb), history of >= 3 operations / fine history with >= 2 different answers (seq), at least one image returned (img)",
     partial_note="cache_sound needs unchanged selection objects: an in-place edited selection under the same cache id returns the stale buffer (F15, known); everything else is proved without restriction on the repaired tree",
 )
